@@ -845,6 +845,11 @@ func (fr *Frame) sliceOp(i *ssa.Slice) *Val {
 		t = "(seq.extract " + cur + " " + lo + " (- " + hi + " " + lo + "))"
 	}
 	v := &Val{T: ex.vc.define(i.Name(), s, t), S: s}
+	if s.K == KSeq && (i.Low != nil || i.High != nil) {
+		// sound sequence lemma, stated through the bridging function so that it can trigger:
+		// element k of the slice is element k+lo of the sliced sequence
+		ex.vc.assume("(forall ((k Int)) (! (=> (and (<= 0 k) (< k (seq.len " + v.T + "))) (= " + ex.vc.nth(v.T, "k", s.Elem) + " " + ex.vc.nth(cur, "(+ k "+lo+")", s.Elem) + ")) :pattern (" + ex.vc.nth(v.T, "k", s.Elem) + ")))")
+	}
 	if i.Low == nil && i.High == nil && x.Elems != nil {
 		v.Elems = x.Elems
 	}
